@@ -127,7 +127,8 @@ type Opts struct {
 	Between      func() // called between API calls (scheduler hand-off)
 	OnRecord     func(i int, n *idr.Node)
 	InputName    string
-	KeepOnlyLast int // keep only the last N entries' payload (long runs); 0 keeps all
+	CustomParam  interface{} // transformctx.Ctx.CustomParam (the yield function for verif_probe)
+	KeepOnlyLast int         // keep only the last N entries' payload (long runs); 0 keeps all
 }
 
 func recoverTo(dst *string, stack *string) {
@@ -151,8 +152,13 @@ func NewSchema(name string, content []byte, exts ...omniparser.Extension) (s omn
 
 // NewTransform calls Schema.NewTransform under recover.
 func NewTransform(s omniparser.Schema, name string, rd io.Reader, ext map[string]string) (tr omniparser.Transform, errStr, panicStr string) {
+	return NewTransformP(s, name, rd, ext, nil)
+}
+
+// NewTransformP is NewTransform with a CustomParam (handed to caller-registered custom funcs).
+func NewTransformP(s omniparser.Schema, name string, rd io.Reader, ext map[string]string, param interface{}) (tr omniparser.Transform, errStr, panicStr string) {
 	defer recoverTo(&panicStr, nil)
-	tr, err := s.NewTransform(name, rd, &transformctx.Ctx{ExternalProperties: ext})
+	tr, err := s.NewTransform(name, rd, &transformctx.Ctx{ExternalProperties: ext, CustomParam: param})
 	if err != nil {
 		return nil, err.Error(), ""
 	}
@@ -238,7 +244,7 @@ func DriveSchema(schema omniparser.Schema, w *world.World, rd io.Reader, o Opts,
 	if name == "" {
 		name = "sim-input"
 	}
-	t, es, ps := NewTransform(schema, name, rd, w.Ext)
+	t, es, ps := NewTransformP(schema, name, rd, w.Ext, o.CustomParam)
 	tr.TransformErr, tr.TransformPanic = es, ps
 	if t == nil {
 		return tr
